@@ -559,6 +559,19 @@ func (g *FuncGen) evalCall(n *Node, env *Env) (Val, error) {
 			return Val{parts[0], tBool}, nil
 		}
 		return Val{"(and " + strings.Join(parts, " ") + ")", tBool}, nil
+	case "unboxed": // unboxed(ifaceValue, Type): the payload of an interface value as a T
+		if len(n.Kids) != 2 {
+			return Val{}, fmt.Errorf("unboxed takes two arguments")
+		}
+		x, err := g.eval(n.Kids[0], env)
+		if err != nil {
+			return Val{}, err
+		}
+		t, err := g.eng.resolveType(strings.ReplaceAll(n.Kids[1].String(), " ", ""), env.pkg)
+		if err != nil {
+			return Val{}, err
+		}
+		return Val{g.w.Unbox(t, fmt.Sprintf("(i_val %s)", x.Term)), t}, nil
 	case "typeis": // typeis(ifaceValue, Type)
 		if len(n.Kids) != 2 {
 			return Val{}, fmt.Errorf("typeis takes two arguments")
@@ -573,8 +586,14 @@ func (g *FuncGen) evalCall(n *Node, env *Env) (Val, error) {
 		}
 		return Val{fmt.Sprintf("(= (i_typ %s) %d)", x.Term, g.w.TypeID(t)), tBool}, nil
 	}
-	// spec function
-	if sf, ok := g.eng.cs.Specs[n.Name]; ok {
+	// spec function (a package qualifier is allowed and ignored: spec names are global)
+	specName := n.Name
+	if k := strings.LastIndex(specName, "."); k >= 0 {
+		if _, ok := g.eng.cs.Specs[specName[k+1:]]; ok {
+			specName = specName[k+1:]
+		}
+	}
+	if sf, ok := g.eng.cs.Specs[specName]; ok {
 		a, err := args()
 		if err != nil {
 			return Val{}, err
